@@ -5,9 +5,8 @@ weights of UNRESTRICTED sign.  Oracles are index sums written here (dense_cp / d
 tensorly's own reconstruction code.
 
 (a) zero budget : dense(result) == dense(init)                            (n_iter_max = 0)
-(b) absorption  : one sweep from (w, F) and from (None, F with w folded into one factor) give the same dense iterate
-                  (CP-ALS with exact 2x2/1x1 solves: for ANY choice of the absorbing factor the ALS iterate is the same
-                  tensor; algorithms with stubbed inner solvers: equal for SOME absorbing factor -- functional stubs)
+(b) absorption  : one sweep of CP-ALS (exact 1x1/2x2 Cramer solves) from (w, F) and from (None, F with w folded into the
+                  first / into the last factor) gives the same dense iterate
 (c) fixed modes : the returned factor of every mode declared fixed is entrywise the supplied one (exact term equality;
                   bit-identical floats in the replay), and fixing every mode returns the initialisation unchanged.
 """
@@ -48,24 +47,30 @@ ENCODED = [
     "tensorly.parafac2_tensor.Parafac2Tensor.from_CPTensor",
 ]
 BOUNDS = {
-    "quick": "orders 2-3, all mode sizes 2, R in {1,2} (Tucker ranks (1,..,1) and (2,..,2)), budgets 0 and 1, tol=0; weights: None, ones, symbolic > 0, symbolic non-zero of any sign; "
-    "all non-empty subsets of fixed modes at order 3; PARAFAC2 with 2 slices of 2x2, one sweep only at R=1",
-    "thorough": "additionally order 4 (zero budget), R=3 (cube-root atom, zero budget), fixed-mode subsets at order 2",
+    "quick": "mode sizes 2; zero budget: orders 2-3, R in {1,2}, weights None / ones / symbolic > 0 / symbolic non-zero of any sign, four CP algorithms, "
+    "tucker, non_negative_tucker(_hals) (ranks (1..1),(2..2)), PARAFAC2 (2 slices 2x2, R in {1,2}, init from Parafac2Tensor and from CPTensor through QR); "
+    "absorption: CP-ALS order 2, R in {1,2}; fixed modes (one sweep, tol=0): every non-empty subset at order 3, R=2 for the four CP algorithms, "
+    "tucker(fixed_factors) budgets 0 and 1, non_negative_tucker_hals subsets without the last mode",
+    "thorough": "additionally order 4 and R=3 (cube-root atom) for the zero-budget checks, CP-ALS absorption at order 3 (R=1), fixed-mode subsets at order 2 and R=1",
 }
 OUTSIDE = [
-    "mode sizes > 2, R > 3, budgets > 1 (one sweep is the induction step: the next sweep starts from a user-independent state)",
-    "weight absorption for algorithms whose inner solver is a stub (HALS, AO-ADMM) is only provable when the implementation itself folds the weights into one factor; "
-    "an implementation that keeps non-unit weights through a stubbed NNLS solve would be reported undecided, not proved",
-    "PARAFAC2 one-sweep checks at R=2 (orthonormality validation of SVD-built projections is not decided within the branch budget)",
+    "mode sizes > 2, R > 3, budgets > 1 (one sweep is the induction step: the next sweep starts from a state that no longer depends on how the init was expressed)",
+    "weight absorption for HALS / AO-ADMM (inner solver is a functional stub: equality of differently scaled NNLS problems is not expressible) and for "
+    "multiplicative-update NN-CP (identities / models over nested merged clip() terms are not decided by z3); one-sweep PARAFAC2 (orthonormality validation of "
+    "projections built from SVD stub outputs forks an undecided exception path)",
+    "non_negative_parafac (MU): identity of a last-mode factor declared fixed (no model found over nested merged updates; the same un-fix logic is decided for the other CP algorithms)",
+    "non_negative_tucker_hals with the last mode declared fixed (refinement of the error-norm root atoms does not terminate in budget; float observation in the builder report)",
+    "tucker(fixed_factors) with non-orthonormal fixed factors (zero budget changes the tensor: core is multiplied by F^T F; float observation in the builder report)",
     "masks, line search, orthogonalise, sparsity options",
 ]
-TRUSTED = ["z3", "functional kernel stubs (solve exact by Cramer for CP-ALS; svd/qr/hals_nnls/fista fresh outputs memoised on argument identity)", "Givens parametrisation of orthonormal user factors/projections (rotation by pi not covered)"]
+TRUSTED = ["z3", "functional kernel stubs (solve exact by Cramer in the absorption check, fresh memoised outputs elsewhere; svd/qr/hals_nnls/fista fresh outputs memoised on argument identity)", "rational Givens parametrisation of orthonormal fixed Tucker factors (rotation by pi not covered); (c, s) with c^2+s^2=1 for PARAFAC2 projections"]
 ASSUMPTIONS = [
     "reals instead of IEEE floats (violations are replayed in float64)",
-    "divisions defined; CP-ALS normal equations nonsingular in the absorption check",
-    "non-negative algorithms are given entrywise non-negative initial factors/core (their abs() projection is then the identity); weights stay unrestricted",
-    "Tucker zero-budget check with fixed factors: fixed factors have orthonormal columns (HOOI invariant); the general case is a separate configuration",
+    "divisions defined (paths on which the symbolic arithmetic divides by an exact zero are dropped); CP-ALS normal equations nonsingular in the absorption check",
+    "non-negative algorithms are given entrywise non-negative data / initial factors / core (their abs() projection is then the identity); weights stay unrestricted",
+    "Tucker zero-budget check with fixed factors: fixed factors have orthonormal columns (HOOI invariant)",
     "constrained_parafac: user factors of modes with hard constraints need not be returned unchanged unless the mode is fixed (consistent with C11)",
+    "fixed-mode configurations: inputs in general position (within each input array non-zero entries with pairwise distinct absolute values) -- only steers the witness of a failing obligation; obligations that hold are discharged syntactically",
 ]
 
 CP_ALGS = ("parafac", "non_negative_parafac", "non_negative_parafac_hals", "constrained_parafac")
